@@ -91,8 +91,10 @@ def render_value(e, arg, out):
     v = arg.val
     x = deref(v)
     while isinstance(x, Ref): x = x.get()
+    if arg.kind == 'debug' and (isinstance(x, (StrBuf, str, bool, int)) or type(x).__name__ == 'SymStr') and not is_sym(x):
+        fm = Formatter(); _debug_fmt(e, '<?>', [Ref([x], 0), Ref([fm], 0)]); out.append(fm.text()); return
     if arg.kind == 'display':
-        if isinstance(x, (StrBuf, str)): out.append(as_pystr(x)); return
+        if isinstance(x, (StrBuf, str)) or type(x).__name__ == 'SymStr': out.append(as_pystr(x)); return
         if isinstance(x, bool): out.append('true' if x else 'false'); return
         if isinstance(x, int): out.append(str(x)); return
         if is_sym(x): raise Unsupported('Display of a symbolic value')
@@ -217,3 +219,42 @@ def _init(e, c, a): return UNIT
 
 def install(e):
     for k, f in LOCAL.items(): e.models[k] = f
+    old = e.models.get('ToString::to_string')
+    def to_string(e_, c, a):
+        v = unguard(a[0])
+        if isinstance(v, (Struct, Enum)) and c.startswith('<'):
+            from .mirparse import find_matching
+            ty = c[1:find_matching(c, 0)].rsplit(' as ', 1)[0]
+            try:
+                out = []; render_value(e_, FmtArg('display', ty, a[0]), out)
+                return StrBuf(''.join(out))
+            except Unsupported: pass
+        return old(e_, c, a)
+    to_string.model_name = 'ToString::to_string'
+    if old is not None: e.models['ToString::to_string'] = to_string
+
+
+# ---- format! / write! into a String
+@cmodel('fmt::format', 'alloc::fmt::format', 'std::fmt::format', 'format')
+def _format(e, c, a):
+    out = []; render(e, a[0], out)
+    return StrBuf(''.join(out))
+@cmodel('<String as Write>::write_fmt', '<String as Write>::write_str', 'String::write_fmt', 'String::write_str')
+def _string_write(e, c, a):
+    s = unguard(a[0])
+    if not isinstance(s, StrBuf) or not isinstance(s.s, str): raise Unsupported('write into %r' % (s,))
+    if c.endswith('write_str'): s.s += as_pystr(a[1])
+    else:
+        out = []; render(e, a[1], out); s.s += ''.join(out)
+    return Enum('Ok', [UNIT], 'Result')
+@cmodel('Debug::fmt')
+def _debug_fmt(e, c, a):
+    fm = unguard(a[1])
+    if not isinstance(fm, Formatter): raise Unsupported('Debug::fmt into %r' % (fm,))
+    x = deref(a[0])
+    while isinstance(x, Ref): x = x.get()
+    if isinstance(x, (StrBuf, str)) or type(x).__name__ == 'SymStr': fm.out.append('"%s"' % as_pystr(x).replace('\\', '\\\\').replace('"', '\\"'))
+    elif isinstance(x, bool): fm.out.append('true' if x else 'false')
+    elif isinstance(x, int): fm.out.append(str(x))
+    else: raise Unsupported('Debug rendering of %r' % (x,))
+    return Enum('Ok', [UNIT], 'Result')
